@@ -95,6 +95,7 @@ structure F64 (F : Type) where
   div : F → F → F
   min : F → F → F
   max : F → F → F
+  powf : F → F → F
   lt : F → F → Bool
   le : F → F → Bool
   gt : F → F → Bool
@@ -111,6 +112,7 @@ def F64.float : F64 Float where
   sub := (· - ·)
   mul := (· * ·)
   div := (· / ·)
+  powf := Float.pow
   min := fun a b => if a.isNaN then b else if b.isNaN then a else if a < b then a else b
   max := fun a b => if a.isNaN then b else if b.isNaN then a else if a > b then a else b
   lt := fun a b => a < b
@@ -122,7 +124,21 @@ def F64.float : F64 Float where
 
 /-- the clock as the sync engines see it: `inserted_at.elapsed()` of an entry, in ms -/
 structure Clock where
-  elapsed : Nat → Nat          -- birth stamp ↦ elapsed ms
+  elapsed : Nat → Nat          -- birth stamp ↦ elapsed ms   (`Instant::elapsed`, sync engines)
+  now : Nat := 0               -- `SystemTime::now()` since the epoch, ms   (async engine)
+
+/-- the stored unix-seconds timestamp of an async entry (the model keeps births in ms: whole seconds × 1000) -/
+def tsSecs {V : Type} (e : Entry V) : Nat := e.birth / 1000
+
+/-- `AsyncGlobalCache`: the DashMap, the order queue behind its mutex, and the configuration -/
+structure AsyncCache (K V F : Type) where
+  cache : Store K V
+  order : List K
+  limit : Option Nat
+  max_memory : Option Nat
+  policy : Policy
+  ttl : Option Nat
+  frequency_weight : Option F
 
 /-- `Duration::as_secs()` of a duration in ms -/
 def asSecs (ms : Nat) : Nat := ms / 1000
